@@ -31,6 +31,10 @@ var c17Types = []c17type{
 	{"Pair", "keys.Pair", `keys.Pair{A: i / 3, B: string(rune('a' + i%3))}`, `e.A*3 + int(e.B[0]-'a')`},
 	// FlattenMembers puts the struct's own members before the embedded ones: the order is C, X, Y
 	{"Key", "keys.Key", `keys.Key{Inner: keys.Inner{X: (i / 2) % 2, Y: i % 2}, C: i / 4}`, `e.C*4 + e.X*2 + e.Y`},
+	// two tagged keys, the second embedding the first, which embeds a struct of two fields: the
+	// members of Ident are flattened twice in one run (for its own set, and again inside Port)
+	{"Ident", "keys.Ident", `keys.Ident{Meta: keys.Meta{P: i / 3, Q: i % 3}}`, `e.P*3 + e.Q`},
+	{"Port", "keys.Port", `keys.Port{Ident: keys.Ident{Meta: keys.Meta{P: (i / 2) % 2, Q: i % 2}}, Number: i / 4}`, `e.Number*4 + e.P*2 + e.Q`},
 }
 
 const c17keys = `package keys
@@ -49,6 +53,18 @@ type Inner struct{ X, Y int }
 type Key struct {
 	Inner
 	C int
+}
+
+type Meta struct{ P, Q int }
+
+// Ident is a key and is embedded in another key.
+// +genset=true
+type Ident struct{ Meta }
+
+// +genset=true
+type Port struct {
+	Ident
+	Number int
 }
 
 // NotAKey has no tag: no set is generated for it.
@@ -143,7 +159,12 @@ func run_SET(nvars int, ops []string) []string {
 				m[x] = true
 			}
 			vars[n(1)] = sets.SETKeySet(m)
+		case "zero":
+			vars[n(1)] = nil // the zero value of the set type: an empty set
 		case "insert":
+			if vars[n(1)] == nil {
+				vars[n(1)] = sets.NewSET() // Go cannot insert into the zero value (a nil map)
+			}
 			if r := vars[n(1)].Insert(items(2)...); len(r) != len(vars[n(1)]) {
 				res = "insert-returned-other-set"
 			}
@@ -207,14 +228,26 @@ func (g *Gen) c17seq(nvars, nelem, length int) []string {
 		}
 		return strings.Join(xs, ",")
 	}
+	// which variables hold the zero value (a nil map: Go cannot insert into it, and an insertion
+	// that first allocates would not be seen through the variable's aliases)
+	isNil := map[int]bool{}
 	for len(ops) < length {
-		switch g.R.Intn(19) {
+		k := len(ops)
+		switch g.R.Intn(20) {
+		case 19:
+			x := v()
+			isNil[x] = true
+			ops = append(ops, fmt.Sprintf("zero,%d", x))
 		case 0:
 			ops = append(ops, fmt.Sprintf("new,%d,%s", v(), items()))
 		case 1:
 			ops = append(ops, fmt.Sprintf("keyset,%d,%s", v(), items()))
 		case 2, 3, 4:
-			ops = append(ops, fmt.Sprintf("insert,%d,%s", v(), items()))
+			if x := v(); isNil[x] {
+				ops = append(ops, fmt.Sprintf("new,%d,%s", x, items()))
+			} else {
+				ops = append(ops, fmt.Sprintf("insert,%d,%s", x, items()))
+			}
 		case 5:
 			ops = append(ops, fmt.Sprintf("delete,%d,%s", v(), items()))
 		case 6:
@@ -248,6 +281,16 @@ func (g *Gen) c17seq(nvars, nelem, length int) []string {
 				ops = append(ops, fmt.Sprintf("popany,%d", v()))
 			}
 		}
+		if len(ops) > k {
+			f := strings.Split(ops[k], ",")
+			ai := func(s string) int { n, _ := strconv.Atoi(s); return n }
+			switch f[0] {
+			case "alias":
+				isNil[ai(f[1])] = isNil[ai(f[2])]
+			case "new", "keyset", "clone", "diff", "symdiff", "union", "inter":
+				isNil[ai(f[1])] = false
+			}
+		}
 	}
 	return ops
 }
@@ -259,7 +302,7 @@ func c17allOps() []string {
 		for x := 0; x < 2; x++ {
 			ops = append(ops, fmt.Sprintf("insert,%d,%d", v, x), fmt.Sprintf("delete,%d,%d", v, x), fmt.Sprintf("has,%d,%d", v, x))
 		}
-		ops = append(ops, fmt.Sprintf("list,%d", v), fmt.Sprintf("len,%d", v), fmt.Sprintf("popany,%d", v), fmt.Sprintf("insert,%d,0,1", v))
+		ops = append(ops, fmt.Sprintf("list,%d", v), fmt.Sprintf("len,%d", v), fmt.Sprintf("popany,%d", v), fmt.Sprintf("insert,%d,0,1", v), fmt.Sprintf("zero,%d", v))
 		for a := 0; a < 2; a++ {
 			ops = append(ops, fmt.Sprintf("clone,%d,%d", v, a))
 			for b := 0; b < 2; b++ {
@@ -320,7 +363,7 @@ func c17(g *Gen) {
 		files = append(files, e.Name())
 	}
 	sort.Strings(files)
-	if want := "byte.go doc.go empty.go int.go int64.go key.go pair.go string.go"; strings.Join(files, " ") != want {
+	if want := "byte.go doc.go empty.go ident.go int.go int64.go key.go pair.go port.go string.go"; strings.Join(files, " ") != want {
 		problems = append(problems, "generated files: "+strings.Join(files, " ")+" (accepted element types should give: "+want+")")
 	}
 	g.Emit("C17.regen!", list(atom(strings.Join(problems, "; "))), boolS(len(problems) == 0), "regenerated-vs-checked-in", "filter")
@@ -359,6 +402,19 @@ func c17(g *Gen) {
 		for i := 0; i < g.N(150, 5000); i++ {
 			nv := 2 + g.R.Intn(3)
 			seqs = append(seqs, seq{t.set, nv, g.c17seq(nv, 2+g.R.Intn(6), 1+g.R.Intn(30)), []string{"random", "type-" + t.set}})
+		}
+	}
+	// every element inserted in a random order, then listed (keys that differ only in their last
+	// field sit next to each other in the listing)
+	for _, t := range c17Types {
+		for i := 0; i < g.N(12, 200); i++ {
+			var xs []string
+			for _, x := range g.R.Perm(8) {
+				xs = append(xs, strconv.Itoa(x))
+			}
+			half := strings.Join(xs[:4], ",")
+			seqs = append(seqs, seq{t.set, 2, []string{"new,0," + strings.Join(xs, ","), "list,0", "clone,1,0", "delete,1," + half, "list,1", "insert,1," + half, "list,1"},
+				[]string{"all-elements-listed", "type-" + t.set}})
 		}
 	}
 	var in bytes.Buffer
@@ -409,6 +465,8 @@ func c17(g *Gen) {
 				}
 			}
 			switch f[0] {
+			case "zero":
+				opsS = append(opsS, tag("new", argn(1), list()))
 			case "new", "keyset", "insert", "delete", "hasall", "hasany":
 				opsS = append(opsS, tag(f[0], argn(1), list(its...)))
 			case "popany":
@@ -445,7 +503,14 @@ func c17(g *Gen) {
 			}
 			outS = append(outS, list(r, list(ds...)))
 		}
-		g.Emit("C17.ops", list(num(s.nvars), list(opsS...)), list(outS...), s.cls...)
+		cls := s.cls
+		for _, op := range s.ops {
+			if strings.HasPrefix(op, "zero,") {
+				cls = append(append([]string{}, cls...), "zero-value-set")
+				break
+			}
+		}
+		g.Emit("C17.ops", list(num(s.nvars), list(opsS...)), list(outS...), cls...)
 	}
 	os.RemoveAll(filepath.Join(src, "ex.test/regen"))
 }
